@@ -5,8 +5,13 @@
 package proxy
 
 import (
+	"context"
 	"fmt"
+	"net"
+	"os"
+	"strconv"
 	"strings"
+	"time"
 )
 
 // verifReplayParseProtocolVersion: every documented spelling selects the version it names.
@@ -20,4 +25,51 @@ func verifReplayParseProtocolVersion(s string) error {
 		return fmt.Errorf("parseProtocolVersion(%q) = %v, the documented meaning is %v", s, v, verifSpecVersion(lowered))
 	}
 	return nil
+}
+
+// verifReplayRunRefusesBadConfig: with a configuration file that is not valid YAML, Run must
+// refuse to start; it must not go on to contact the backend.
+func verifReplayRunRefusesBadConfig() error {
+	ln, err := net.Listen("tcp", "127.0.0.1:0")
+	if err != nil {
+		return nil // cannot set up the observation; not a reproduction
+	}
+	defer ln.Close()
+	contacted := make(chan struct{}, 1)
+	go func() {
+		if c, err := ln.Accept(); err == nil {
+			_ = c.Close()
+			contacted <- struct{}{}
+		}
+	}()
+	f, err := os.CreateTemp("", "verif-bad-*.yaml")
+	if err != nil {
+		return nil
+	}
+	defer os.Remove(f.Name())
+	_, _ = f.WriteString("bind: [this is not\n  valid: yaml: at all\n")
+	_ = f.Close()
+	port := ln.Addr().(*net.TCPAddr).Port
+	ctx, cancel := context.WithTimeout(context.Background(), 3*time.Second)
+	defer cancel()
+	done := make(chan int, 1)
+	go func() {
+		done <- Run(ctx, []string{"--config", f.Name(), "--contact-points", "127.0.0.1", "--port", strconv.Itoa(port), "--bind", "127.0.0.1:0"})
+	}()
+	select {
+	case <-contacted:
+		return fmt.Errorf("Run reported invalid YAML in %s and still went on to connect to the backend", f.Name())
+	case rc := <-done:
+		if rc == 0 {
+			return fmt.Errorf("Run returned 0 for an invalid YAML configuration file")
+		}
+		select {
+		case <-contacted:
+			return fmt.Errorf("Run reported invalid YAML and still contacted the backend before exiting")
+		case <-time.After(200 * time.Millisecond):
+		}
+		return nil
+	case <-time.After(4 * time.Second):
+		return fmt.Errorf("Run neither refused the invalid YAML configuration nor returned")
+	}
 }
